@@ -419,3 +419,7 @@ CLAIMS["C12"]["text"] += (" Addresses of the peer are generated in every form th
 CLAIMS["C12"]["note"] += (" 'Limited' ground truth is configuration (a /p2p-circuit connection through a relay configured with limits). All nodes share the PSK or none has one. With link latency a settled point is 50 latencies after quiescence. Outcomes of events at the same virtual instant race for real and either is accepted.")
 CLAIMS["C16"]["text"] += (" TestDialBackSockets runs the server with the real dialer stack (swarm + TCP, QUIC, WebSocket transports on loopback sockets) over dial-back address shapes (tcp, quic-v1, ws, wss, tls/ws, tls/sni/<name>/ws; ports incl. the scheme defaults 80/443; /sni names that are literals of, or resolve via an in-process DNS server to, another/the same/no IP) and checks at the sockets (accept loops on every IP of the case x requested ports + 80 + 443; recorder on the dialer's UDP sockets) that every connection/datagram goes to an (IP, port) named in the request, to a foreign IP only after the requested dial data was consumed, and to one endpoint at most.")
 CLAIMS["C16"]["note"] += (" TestDialBackSockets: IPv4 loopback with AllowPrivateAddrs (public-ness is not exercised there); TCP is observed only at the listening endpoints, UDP at the dialer's socket; real time, few cases (128 quick / 2400 thorough); bind failures and timeouts are counted as skipped, not violations.")
+
+CLAIMS["C02"]["text"] += (" Truncation is a generated cut position: the byte stream under a Noise or TLS session ends with a FIN between frames, inside the length prefix or record header, after a complete prefix, or anywhere inside a frame body or tag; a cut strictly inside a frame must end the reader's Read sequence with an error other than io.EOF (only a cut exactly between frames over a byte pipe may look like a clean end). "
+    "The same is checked over the real WebSocket transport through a frame-parsing TCP proxy that delivers k messages of one direction and then ends the TCP stream without a close frame, at or inside a message boundary: there io.EOF is never acceptable, and the reader receives at most the plaintext of the messages that arrived whole.")
+CLAIMS["C02"]["note"] += (" The WebSocket cut test uses loopback sockets (a stall is inconclusive) and assumes one security-layer frame is one WebSocket message, with sizes measured by the proxy. pnet is not truncated (no framing, not an authenticated channel).")
